@@ -125,6 +125,8 @@ class Gen:
             spec["mapping_key"] = key
             n = len(uniq)
             spec["min"], spec["max"] = n, n
+        elif cfg.mapping_payloads and not engine.startswith("sql") and rng.random() < 0.08:
+            spec["lazy_chain"] = rng.randint(0, len(rows))
         self.leaves[name] = spec
         return ["leaf", name], frozenset(cols), engine
 
